@@ -1,5 +1,188 @@
 package main
 
-// installMore registers intrinsics added after the first engine version.
+import (
+	"fmt"
+	"go/types"
+	"math"
+	"regexp"
+	"strconv"
+)
+
+// jsonBlob is a value that went through the encoding/json stub: Marshal turns a value into an opaque
+// token text and remembers a deep copy; Unmarshal of exactly that text gives the copy back, anything else
+// (a cut or altered text) is a syntax error. This is the "JSON round trip is the identity on values that
+// marshal, and no strict prefix of an object's text parses" contract; encoding/json itself is
+// reflection-driven and is not interpreted (stated in the evidence as a stub).
+type jsonBlob struct {
+	v Value
+	t types.Type
+}
+
+var blobRe = regexp.MustCompile(`^\{"verif_json_blob":(\d+)\}$`)
+
+func (r *Run) stub(name string) {
+	if r.StubCount == nil {
+		r.StubCount = map[string]int{}
+	}
+	r.StubCount[name]++
+}
+
+// deepCopy copies structs/arrays and follows pointers (fresh cells), so that the stored blob does not alias the
+// live object; maps and slices of scalars are copied one level.
+func deepCopy(v Value, seen map[*Value]*Value) Value {
+	switch x := v.(type) {
+	case Struct:
+		c := make(Struct, len(x))
+		for i := range x {
+			c[i] = deepCopy(x[i], seen)
+		}
+		return c
+	case Array:
+		c := make(Array, len(x))
+		for i := range x {
+			c[i] = deepCopy(x[i], seen)
+		}
+		return c
+	case Ptr:
+		if x == nil {
+			return x
+		}
+		if p, ok := seen[x]; ok {
+			return Ptr(p)
+		}
+		cell := new(Value)
+		seen[x] = cell
+		*cell = deepCopy(*x, seen)
+		return Ptr(cell)
+	case Slice:
+		if x.Nil {
+			return x
+		}
+		c := make([]Value, len(x.S))
+		for i := range x.S {
+			c[i] = deepCopy(x.S[i], seen)
+		}
+		return Slice{S: c}
+	case *Map:
+		if x == nil {
+			return x
+		}
+		m := &Map{}
+		for i := range x.Keys {
+			m.Keys = append(m.Keys, deepCopy(x.Keys[i], seen))
+			m.Vals = append(m.Vals, deepCopy(x.Vals[i], seen))
+		}
+		return m
+	}
+	return v
+}
+
+// floatsMarshalable forks on NaN/Inf for every float64 reachable in v: encoding/json refuses those.
+func (r *Run) floatsMarshalable(v Value, depth int) bool {
+	if depth > 6 {
+		return true
+	}
+	switch x := v.(type) {
+	case float64:
+		return !math.IsNaN(x) && !math.IsInf(x, 0)
+	case FSym:
+		nan := r.TT.mk("fp.isNaN", 0, 0, "", x.T)
+		inf := r.TT.mk("fp.isInfinite", 0, 0, "", x.T)
+		return !r.branch(Bool{T: r.TT.Or(nan, inf)})
+	case Struct:
+		for _, f := range x {
+			if !r.floatsMarshalable(f, depth+1) {
+				return false
+			}
+		}
+	case Array:
+		for _, f := range x {
+			if !r.floatsMarshalable(f, depth+1) {
+				return false
+			}
+		}
+	case Ptr:
+		if x != nil {
+			return r.floatsMarshalable(*x, depth+1)
+		}
+	case Slice:
+		for _, f := range x.S {
+			if !r.floatsMarshalable(f, depth+1) {
+				return false
+			}
+		}
+	case Iface:
+		return r.floatsMarshalable(x.V, depth+1)
+	}
+	return true
+}
+
 func installMore(m *Machine) {
+	I := m.Intr
+	marshal := func(r *Run, fr *Frame, a []Value) Value {
+		r.stub("encoding/json.Marshal (opaque token; round trip = identity)")
+		v := a[0].(Iface)
+		if !r.floatsMarshalable(v.V, 0) {
+			return Tuple{Slice{Nil: true}, r.newError("json: unsupported value: NaN or Inf")}
+		}
+		r.Blobs = append(r.Blobs, jsonBlob{v: deepCopy(v.V, map[*Value]*Value{}), t: v.T})
+		txt := fmt.Sprintf(`{"verif_json_blob":%d}`, len(r.Blobs)-1)
+		out := make([]Value, len(txt))
+		for i := 0; i < len(txt); i++ {
+			out[i] = Num{W: 8, C: uint64(txt[i])}
+		}
+		return Tuple{Slice{S: out}, nilErr()}
+	}
+	I["encoding/json.Marshal"] = marshal
+	I["encoding/json.MarshalIndent"] = marshal
+	I["encoding/json.Unmarshal"] = func(r *Run, fr *Frame, a []Value) Value {
+		r.stub("encoding/json.Unmarshal (opaque token; anything else is a syntax error)")
+		data := a[0].(Slice).S
+		dst := a[1].(Iface)
+		bs := make([]byte, len(data))
+		for i, b := range data {
+			n := b.(Num)
+			if n.T != nil {
+				return r.newError("invalid character in JSON text (symbolic byte)")
+			}
+			bs[i] = byte(n.C)
+		}
+		mt := blobRe.FindSubmatch(bs)
+		if mt == nil {
+			return r.newError("unexpected end of JSON input")
+		}
+		id, _ := strconv.Atoi(string(mt[1]))
+		if id >= len(r.Blobs) {
+			return r.newError("invalid JSON token")
+		}
+		b := r.Blobs[id]
+		p, ok := dst.V.(Ptr)
+		if !ok || p == nil {
+			return r.newError("json: Unmarshal(non-pointer)")
+		}
+		// the stored value was marshalled either as T or as *T
+		pt, _ := dst.T.(*types.Pointer)
+		switch {
+		case pt != nil && types.Identical(b.t, dst.T):
+			*p = deepCopy(*(b.v.(Ptr)), map[*Value]*Value{})
+		case pt != nil && types.Identical(b.t, pt.Elem()):
+			*p = deepCopy(b.v, map[*Value]*Value{})
+		default:
+			return r.newError("json: cannot unmarshal into Go value of a different type")
+		}
+		// a mutex inside the copy starts unlocked
+		return nilErr()
+	}
+	I["io.ReadAll"] = func(r *Run, fr *Frame, a []Value) Value {
+		// only *os.File readers occur in kevo
+		rd := a[0].(Iface)
+		if p, ok := rd.V.(Ptr); ok {
+			if hd := r.FS.Handles[p]; hd != nil {
+				out := append([]Value{}, hd.F.Data[min(hd.Pos, len(hd.F.Data)):]...)
+				hd.Pos = len(hd.F.Data)
+				return Tuple{Slice{S: out}, nilErr()}
+			}
+		}
+		panic("io.ReadAll on an unsupported reader")
+	}
 }
